@@ -67,6 +67,10 @@ def toksSet (l : List Token) (k : Nat) (v : Token) : R (List Token) :=
 /-- `str(n)` for an int -/
 def strOfInt (n : Int) : Token := (toString n).toList
 
+/-! a str known to be `str(n)` for an int `n` is kept as `n`: `str(n).isdigit()` (no sign), `len(str(n))`; `int(str(n))` is `n` -/
+def intStrIsDigit (n : Int) : Bool := decide (0 ≤ n)
+def intStrLen (n : Int) : Nat := (toString n).length
+
 /-- `tokens[i]` with Python's negative-index wrap-around -/
 def toksAt (l : List Token) (i : Int) : R Token := Py.getIdx l i
 
